@@ -330,6 +330,13 @@ func (t *timestampOracle) UpdateTimestamp(leadership *election.Leadership) error
 	t.updateMu.Lock()
 	defer t.updateMu.Unlock()
 	prevPhysical, prevLogical := t.getTSO()
+	// The timestamp in memory has been reset (e.g. the leadership was given up while this update
+	// was waiting to run). Only SyncTimestamp may initialize it again, otherwise a later
+	// leadership term could serve this stale time before it has synchronized with etcd.
+	if prevPhysical == typeutil.ZeroTime {
+		tsoCounter.WithLabelValues("skip_save", t.dcLocation).Inc()
+		return nil
+	}
 	tsoGauge.WithLabelValues("tso", t.dcLocation).Set(float64(prevPhysical.UnixNano() / int64(time.Millisecond)))
 	tsoGap.WithLabelValues(t.dcLocation).Set(float64(time.Since(prevPhysical).Milliseconds()))
 
@@ -436,6 +443,9 @@ func (t *timestampOracle) getTS(leadership *election.Leadership, count uint32, s
 
 // ResetTimestamp is used to reset the timestamp in memory.
 func (t *timestampOracle) ResetTimestamp() {
+	// Wait for an in-flight window update to finish so that it cannot set the time again after the reset.
+	t.updateMu.Lock()
+	defer t.updateMu.Unlock()
 	t.tsoMux.Lock()
 	defer t.tsoMux.Unlock()
 	log.Info("reset the timestamp in memory")
